@@ -7,7 +7,10 @@ package main
 // negative id as nil (ids are unsigned in the format).  The id is an unknown
 // with a range; the sign test must be decided by the range on every path.
 
-import "math"
+import (
+	"go/types"
+	"math"
+)
 
 type idCtx struct {
 	neg bool
@@ -21,7 +24,37 @@ func mvtIDSpecs(thorough bool) []composeSpec {
 			return []AV{v}, &idCtx{neg: neg, sym: v.Sym}
 		}}
 	}
-	return []composeSpec{{
+	type idKind struct {
+		k      types.BasicKind
+		lo, hi int64
+	}
+	kinds := []idKind{
+		{types.Int, 0, math.MaxInt64}, {types.Int8, 0, math.MaxInt8}, {types.Int16, 0, math.MaxInt16}, {types.Int32, 0, math.MaxInt32}, {types.Int64, 0, math.MaxInt64},
+		{types.Uint, 0, math.MaxInt64}, {types.Uint8, 0, math.MaxUint8}, {types.Uint16, 0, math.MaxUint16}, {types.Uint32, 0, math.MaxUint32}, {types.Uint64, 0, math.MaxInt64},
+	}
+	var dispatch []composeCase
+	for _, k := range kinds {
+		k := k
+		dispatch = append(dispatch, composeCase{"an id >= 0 of type " + types.Typ[k.k].Name(), func(it *Interp, s *State) ([]AV, interface{}) {
+			v := it.freshSym(s, k.lo, k.hi, false)
+			return []AV{IfaceV{Typ: types.Typ[k.k], Val: v}}, &idCtx{sym: v.Sym}
+		}})
+	}
+	dispatchSpec := composeSpec{
+		entry: "encoding/mvt.convertID", anyPath: true, cases: dispatch,
+		desc: "an id >= 0 of every signed and unsigned integer type is stored (the result is not nil)",
+		judge: func(_ *Interp, cx interface{}, st *State) string {
+			p, ok := st.result[0].(PtrV)
+			if !ok || p.Top {
+				return "the result is not a known pointer"
+			}
+			if p.Nil || p.MayNil {
+				return "an integer id >= 0 of this type is dropped (nil) on this path"
+			}
+			return ""
+		},
+	}
+	return []composeSpec{dispatchSpec, {
 		entry: "encoding/mvt.convertIntID", anyPath: true,
 		cases: []composeCase{
 			mk("any id >= 0", 0, math.MaxInt64, false),
